@@ -142,12 +142,14 @@ func c19Exec(in Fields) Fields {
 
 func c19Class(in Fields) string {
 	c := c19Decode(in)
-	cls := "enum"
+	cls := "enum" // universe a b c sasl
 	switch {
 	case len(c.wanted) > 8:
 		cls = "long"
-	case strings.HasPrefix(c.pass, "h"):
-		cls = "history" // generated histories carry passwords starting with "h"; the enumeration uses "pw"
+	case c19Contains(c.universe, "A"):
+		cls = "history"
+	case len(c.universe) == 3:
+		cls = "creds"
 	}
 	has := func(sub string) bool {
 		for _, l := range c.script {
@@ -174,7 +176,136 @@ func c19Class(in Fields) string {
 			break
 		}
 	}
-	return cls + ":" + c.kind + ":" + out
+	return cls + ":" + c.kind + ":" + out + c19DataTag(c)
+}
+
+// c19DataTag: does this script make the client send its SASL initial response (an ACK carrying
+// "sasl" followed by an AUTHENTICATE from the server), and if so what does the STANDARD base64 of
+// that response (computed here from the INPUT, not taken from the client) look like:
+//   ":data"      sent, encoding free of '+' and '/' (identical under the URL-safe alphabet)
+//   ":data+/"    sent, encoding contains '+' or '/'
+//   "...:ge400"  the encoding is 400 bytes or longer (IRCv3 would chunk it)
+func c19DataTag(c c19Case) string {
+	var ir []byte
+	switch c.kind {
+	case "plain":
+		ir = []byte(c.id + "\x00" + c.user + "\x00" + c.pass)
+	case "external":
+		ir = []byte(c.id)
+	default:
+		return ""
+	}
+	armed, sent := false, false
+	for _, l := range c.script {
+		k := strings.Index(l, " ACK ")
+		if strings.Contains(l, "CAP ") && k >= 0 {
+			if t := strings.Index(l, " :"); t >= 0 && c19Contains(strings.Fields(l[t+2:]), "sasl") {
+				armed = true
+			}
+		}
+		if armed && (strings.HasPrefix(l, "AUTHENTICATE") || strings.HasPrefix(l, c19Src+"AUTHENTICATE")) {
+			sent = true
+			break
+		}
+	}
+	if !sent || len(ir) == 0 {
+		return ""
+	}
+	enc := base64.StdEncoding.EncodeToString(ir)
+	tag := ":data"
+	if strings.ContainsAny(enc, "+/") {
+		tag += "+/"
+	}
+	if len(enc) >= 400 {
+		tag += ":ge400"
+	}
+	return tag
+}
+
+// ---------- credentials ----------
+// Drawn from alphabets chosen so that the base64 of "authzid NUL authcid NUL passwd" uses all 64
+// symbols: ASCII incl. '>' '?' '~' DEL (the only ASCII bytes that can produce sextets 62/63, and
+// only at offsets = 2 mod 3), bytes 0x80-0xff, UTF-8 multi-byte text, arbitrary bytes; lengths
+// 0..24 (all residues mod 3), sometimes 300..700 (encoding longer than 400 bytes).
+var c19Runes = []string{"ü", "é", "ñ", "ß", "ø", "å", "日", "本", "語", "п", "а", "р", "о", "л", "ь", "🔑", "€", "ÿ", "\u07ff", "\uffff", "þ", "¿", "¾"}
+var c19Ascii = []byte("abcxyzABCXYZ0189 >?~\x7f>?~!:+/-_=.,@")
+
+func c19Cred(r *Rand, maxLen int) string {
+	n := r.Intn(maxLen + 1)
+	mode := r.Intn(5)
+	var b []byte
+	for len(b) < n {
+		m := mode
+		if m == 4 {
+			m = r.Intn(4)
+		}
+		switch m {
+		case 0:
+			b = append(b, c19Ascii[r.Intn(len(c19Ascii))])
+		case 1:
+			b = append(b, byte(0x80+r.Intn(128)))
+		case 2:
+			b = append(b, c19Runes[r.Intn(len(c19Runes))]...)
+		default:
+			b = append(b, byte(r.Intn(256)))
+		}
+	}
+	return string(b)
+}
+
+func c19Creds(r *Rand, kind string) (id, user, pass string) {
+	switch kind {
+	case "plain":
+		if r.Chance(35) {
+			id = c19Cred(r, 12)
+		}
+		user = c19Cred(r, 16)
+		if r.Chance(8) {
+			pass = c19Cred(r, 400) + c19Cred(r, 300) + c19Cred(r, 24)
+		} else {
+			pass = c19Cred(r, 24)
+		}
+	case "external":
+		if r.Chance(60) {
+			id = c19Cred(r, 20)
+			if r.Chance(8) {
+				id += c19Cred(r, 600)
+			}
+		}
+	}
+	return
+}
+
+// hand-picked credentials (the seeded URL-alphabet mutant's notes, plus boundary lengths)
+var c19FixedCreds = [][3]string{
+	{"", "bot", "top~secret"}, {"", "bot", "why?"}, {"", "jürgen", "pässwörd"}, {"", "\xff\xfe>", "x"},
+	{"admin", "bot", "a>b"}, {"", "example", "password"}, {"", "", ""}, {"", "u", "~"}, {"", "u", "~~"}, {"", "u", "~~~"},
+	{"日本語", "пароль", "🔑€"}, {"", "bot", strings.Repeat("p?~", 120)}, {"", "bot", strings.Repeat("~", 297)},
+	{"", "b", strings.Repeat("\xfb\xff\xbf", 100)},
+}
+
+// a SASL login with the given credentials; the server also advertises a and b
+func c19Login(r *Rand, kind, id, user, pass string) Fields {
+	var wanted []string
+	for _, x := range []string{"a", "b"} {
+		if r.Chance(40) {
+			wanted = append(wanted, x)
+		}
+	}
+	req := c19Intersect(wanted, true, []string{"a", "b", "sasl"})
+	script := []string{c19Src + "CAP * LS :" + r.Pick([]string{"sasl a b", "a sasl b", "b a sasl"}),
+		c19Src + "CAP vbot ACK :" + strings.Join(req, " "), "AUTHENTICATE +"}
+	switch r.Intn(5) {
+	case 0:
+		script = append(script, c19Src+"904 vbot :SASL authentication failed")
+	case 1:
+		script = append(script, c19Src+"908 vbot PLAIN,EXTERNAL :are available SASL mechanisms", c19Src+"904 vbot :SASL authentication failed")
+	case 2:
+		script = append(script, "AUTHENTICATE +", c19Src+"903 vbot :SASL authentication successful")
+	default:
+		script = append(script, c19Src+"903 vbot :SASL authentication successful")
+	}
+	return c19Input(kind, id, user, pass, wanted, []string{"sasl", "a", "b"}, script)
 }
 
 const c19Src = ":irc.example "
@@ -222,14 +353,8 @@ func c19Contains(xs []string, x string) bool {
 }
 
 // the conformant dialogue for one point of the product
-func c19Dialogue(wanted, adv []string, reply, kind, outcome string) (Fields, bool) {
-	id, user, pass := "", "", ""
-	switch kind {
-	case "plain":
-		id, user, pass = "", "vuser", "pw"
-	case "external":
-		id = ""
-	}
+func c19Dialogue(r *Rand, wanted, adv []string, reply, kind, outcome string) (Fields, bool) {
+	id, user, pass := c19Creds(r, kind)
 	req := c19Intersect(wanted, kind != "none", adv)
 	script := []string{c19Src + "CAP * LS :" + strings.Join(adv, " ")}
 	acked := []string{}
@@ -346,7 +471,8 @@ func c19Long(r *Rand) Fields {
 	for i := 0; i < 6; i++ {
 		universe = append(universe, names[r.Intn(len(names))])
 	}
-	return c19Input(kind, "ident"+c19Name(r, 0, 3), "user", "pw", wanted, universe, script)
+	id, user, pass := c19Creds(r, kind)
+	return c19Input(kind, id, user, pass, wanted, universe, script)
 }
 
 // arbitrary histories over the event alphabet, including non-conformant junk
@@ -409,7 +535,8 @@ func c19History(r *Rand) Fields {
 		script = append(script, l)
 	}
 	universe := []string{"a", "b", "c", "sasl", "", "-a", "A"}
-	return c19Input(kind, r.Pick([]string{"", "id"}), r.Pick([]string{"u", "vuser", ""}), "h"+r.Pick([]string{"pw", "", "p w"}), wanted, universe, script)
+	id, user, pass := c19Creds(r, kind)
+	return c19Input(kind, id, user, pass, wanted, universe, script)
 }
 
 func c19Gen(r *Rand, tier string, scale int, emit func(in Fields)) {
@@ -424,7 +551,7 @@ func c19Gen(r *Rand, tier string, scale int, emit func(in Fields)) {
 			for _, reply := range []string{"ackall", "acksub", "nak", "ackminus"} {
 				for _, kind := range []string{"none", "plain", "external"} {
 					for _, outcome := range []string{"903", "904", "908", "none"} {
-						if in, ok := c19Dialogue(wanted, adv, reply, kind, outcome); ok {
+						if in, ok := c19Dialogue(r.Fork(), wanted, adv, reply, kind, outcome); ok {
 							enum = append(enum, in)
 						}
 					}
@@ -452,8 +579,31 @@ func c19Gen(r *Rand, tier string, scale int, emit func(in Fields)) {
 	for i := 0; i < nlong; i++ {
 		emit(c19Long(r.Fork()))
 	}
-	// 3. arbitrary histories / junk
-	for i := 0; i < rest-nlong; i++ {
+	// 3. SASL logins with credentials from wide alphabets: first the hand-picked ones, then random
+	ncreds := rest / 4
+	for i := 0; i < ncreds; i++ {
+		rr := r.Fork()
+		if i < 2*len(c19FixedCreds) {
+			c := c19FixedCreds[i/2]
+			if i%2 == 0 {
+				emit(c19Login(rr, "plain", c[0], c[1], c[2]))
+			} else {
+				emit(c19Login(rr, "external", c[2], "", ""))
+			}
+			continue
+		}
+		kind := "plain"
+		if rr.Chance(25) {
+			kind = "external"
+		}
+		id, user, pass := c19Creds(rr, kind)
+		if kind == "external" && id == "" {
+			id = c19Cred(rr, 20) + "?"
+		}
+		emit(c19Login(rr, kind, id, user, pass))
+	}
+	// 4. arbitrary histories / junk
+	for i := 0; i < rest-nlong-ncreds; i++ {
 		emit(c19History(r.Fork()))
 	}
 }
